@@ -2767,17 +2767,25 @@ class HasTraits(CHasTraits, metaclass=MetaHasTraits):
         del locked[name]
 
     def _sync_trait_items_modified(self, object, name, old, event):
-        n0 = event.index
-        n1 = n0 + len(event.removed)
+        index = event.index
+        if not isinstance(index, slice):
+            index = slice(index, index + len(event.removed))
         name = name[:-6]
         info = self.__sync_trait__
+        if name not in info:
+            # The last partner has been garbage collected.
+            return
         locked = info[""]
         locked[name] = None
         for object, object_name in info[name].values():
             object = object()
             if object_name not in object._get_sync_trait_info()[""]:
                 try:
-                    getattr(object, object_name)[n0:n1] = event.added
+                    if event.added or index.step is None:
+                        getattr(object, object_name)[index] = event.added
+                    else:
+                        # Deletion of an extended slice.
+                        del getattr(object, object_name)[index]
                 except:
                     pass
 
